@@ -330,6 +330,8 @@ KNOWN_BAD = {
          "#[derive(Debug, Clone, PartialEq, Difference)]\npub struct Inner { pub x: i64 }\n#[derive(Debug, Clone, PartialEq, Difference)]\n#[difference(expose)]\npub struct A { #[difference(recurse)] pub bc: Inner, #[difference(recurse)] pub o: Option<Inner> }\n#[derive(Debug, Clone, PartialEq, Difference)]\n#[difference(expose)]\npub struct Ab { #[difference(recurse)] pub c: Inner }\n#[derive(Debug, Clone, PartialEq, Difference)]\n#[difference(expose)]\npub struct Ao { #[difference(recurse)] pub d: Inner }\n"),
  'D7': ("trailing comma inside a difference attribute", "#[derive(Debug, Clone, PartialEq, Difference)]\npub struct D { #[difference(skip,)] pub f0: i64, pub f1: i64 }\n"),
  'D8': ("generic parameter used only behind a reference inside another type", "#[derive(Debug, Clone, PartialEq, Difference)]\npub struct D<'a, T> { pub o: Option<&'a T> }\n"),
+ 'D8b': ("generic parameter used only as the head of an associated-type path (same cause as D8: the used-parameter test compares the parameter's name with whole base strings)",
+         "pub trait Has { type Item; }\n#[derive(Debug, Clone, PartialEq)]\npub struct H;\nimpl Has for H { type Item = u8; }\n#[derive(Debug, Clone, PartialEq, Difference)]\npub struct D<T: Has + Clone + PartialEq + std::fmt::Debug> where T::Item: Clone + PartialEq + std::fmt::Debug { pub item: T::Item, pub n: u8 }\n"),
  'D9': ("bare reference field", "#[derive(Debug, Clone, PartialEq, Difference)]\npub struct D<'a> { pub o: &'a u8 }\n"),
  'D10': ("reference to a reference inside a generic argument (parser panics)", "#[derive(Debug, Clone, PartialEq, Difference)]\npub struct D<'a> { pub x: Option<&'a &'a u8> }\n"),
 }
